@@ -9,7 +9,7 @@ def repo_commits():
     return [l.split()[0] for l in out.splitlines() if l.split(" ", 1)[1].startswith("verif hook")]
 
 E1 = "E1 model-diff interpreter (harness/rt)"
-DYN = "DynClause hook (run-time sized clause tuple) is trusted to deconstruct its elements in push order like the tuple impls do (C14 checks the tuple impls themselves); proptest's generators and shrinking; the reference model in harness/rt/src/model.rs was written from the documentation"
+DYN = "each generated clause is wrapped in the DynClause hook (its builder type is only known at run time) and the clause list is a production tuple of that arity (nested beyond 16); proptest's generators and shrinking; the reference model in harness/rt/src/model.rs was written from the documentation"
 
 CHECKS = {
  "C01": dict(engine=E1, cat="exploration", ref="§4 C01",
@@ -35,7 +35,7 @@ CHECKS = {
  "C18": dict(engine=E1, cat="exploration", ref="§4 C18",
    technique="metamorphic property-based testing: pairs of real runs related by clause permutation, call routing through clones, twin mocks, generic instantiation pairs",
    text="For generated scenarios of the C01-C04 spaces the transformed run (clauses permuted across methods, calls routed through clones, a twin mock interleaved) must produce identical per-call outcomes and an identical multiset of verification lines; two instantiations of a generic trait and of a generic method with overlapping patterns are checked against the model as distinct methods.",
-   note="no model involved for the three relations (implementation compared with itself under a transformation that must be behaviour-preserving); DynClause hook assembles clause lists"),
+   note="no model involved for the three relations (implementation compared with itself under a transformation that must be behaviour-preserving); clauses wrapped in the DynClause hook, lists are production tuples"),
 
  "C08": dict(engine="E1 + real threads (harness/rt)", cat="fault_enumeration", ref="§4 C08",
    technique="fault-injecting property-based testing: generated histories with every reachable mock-induced error kind at any position, on clones, on other threads (caught or propagated to join), concurrent bursts; invariant over the history + reference model for the negative controls",
